@@ -170,6 +170,12 @@ func (w *world) exec2(c Case) (got, gotSib string, detail string, p *core.PanicI
 	if (len(c.Base)+len(c.Delta))%2 == 1 {
 		shape = sims.HTTPShape(1, 1)
 	}
+	if (3*len(c.Base)+len(c.Delta))%4 == 2 {
+		// the checked certificate's validity ended in 2010: the signing time the
+		// cases supply (2020) lies outside it - and is the caller's authentic
+		// signing time all the same
+		shape.Expired = true
+	}
 	chain := w.fam.Chain([]sims.Shape{shape, {}})
 	w = &world{fam: w.fam, kit: w.kit, url: w.url, sib: w.sib, cert: chain[0].SerialNumber}
 	base := &pki.CRL{IssuerRawName: w.kit.Issuer.RawSubject, SignKey: w.kit.IKey, NextUpdate: pki.Future, Number: big.NewInt(100), Entries: w.entriesFor(c, c.Base)}
